@@ -3,6 +3,7 @@ import QuickAdd.Lemmas.Cal
 import QuickAdd.Props.C03
 import QuickAdd.Props.C04
 import QuickAdd.Props.C02
+import QuickAdd.Lemmas.SearchWork
 /-!
 # C01 — parsing is total: no production raises on the values the rule base can build
 
@@ -33,18 +34,7 @@ theorem some_of_isSome {α : Type} {o : Option α} (h : o.isSome = true) : ∃ x
   | some x => exact ⟨x, rfl⟩
 
 /-! ### bounds on ordinals from bounds on the year -/
-theorem ord_bounds (d : Date) (hv : d.Valid) (hy : 1 ≤ d.y ∧ d.y ≤ 9990) : 1 ≤ d.ord ∧ d.ord + 400 ≤ maxOrd := by
-  constructor
-  · have h1 := ord_pos_in_year d hv
-    have h2 := dby_mono (d.y - 1).toNat 1
-    have e : (1 : Int) + ((d.y - 1).toNat : Int) = d.y := by omega
-    rw [e] at h2
-    have : dby 1 = 0 := by decide
-    omega
-  · have hv9 : (⟨9992, 1, 1⟩ : Date).Valid := (Date.valid_iff _).mp (by decide)
-    have := ord_strict_year d ⟨9992, 1, 1⟩ hv hv9 (by simp; omega)
-    have e : (⟨9992, 1, 1⟩ : Date).ord + 2000 ≤ maxOrd := by decide
-    omega
+theorem ord_bounds (d : Date) (hv : d.Valid) (hy : 1 ≤ d.y ∧ d.y ≤ 9990) : 1 ≤ d.ord ∧ d.ord + 400 ≤ maxOrd := ord_bounds_of_year d hv hy
 
 /-- today ± 1, ± 2, this / next weekday, end of month: never raise, for every valid reference date up to year 9990 -/
 theorem relative_rules_total (ts : Ts) (hv : ts.date.Valid) (hy : 2 ≤ ts.date.y ∧ ts.date.y ≤ 9990) (w : Int) (hw : 0 ≤ w ∧ w < 7) :
@@ -197,6 +187,12 @@ theorem duration_rules_total (d : Date) (n : Int) (u : DUnit) (hv : d.valid = tr
   have hdt : (Time.dt { year := some d.y, month := some d.m, day := some d.d }) = .ok ⟨d, 0, 0⟩ := by
     simp [Time.dt, Time.start, Time.hasPOD, Time.hasAtLeast, Time.isSet, hv, hr, bind, Except.bind, pure, Except.pure]
   cases u <;> simp only [ruleTimeDuration, hst, hdt, bind, Except.bind, pure, Except.pure] <;> (repeat' split) <;> exact ⟨_, rfl⟩
+
+/-- an exception of the candidate stream can only originate in a production (or be the model's fuel marker): the loop itself,
+    the ordering, both dedup tables, the depth cut and the deadline handling have no failing operation -/
+theorem search_error_source {α S : Type} (c : Cfg α S) (f : Nat) (budget : Option Nat) (stack : List (E α S)) (e : PyErr)
+    (h : (run c f budget stack [] []).2 = some e) : e = .unmodelled ∨ ∃ rules p t, c.expand rules p t = .error e :=
+  run_err_source c f budget stack [] [] e h
 
 /-- the repaired crash classes of DESIGN §8 stay repaired in the model (each was replayed against the real code) -/
 example : applyRule "ruleDateTimeDateTime" ⟨⟨2018, 3, 7⟩, 12, 43⟩
